@@ -3,6 +3,8 @@
 package hash
 
 import (
+	"math/big"
+
 	"github.com/taurusgroup/multi-party-sig/internal/vsym"
 )
 
@@ -147,4 +149,33 @@ func H_CommitValidate() {
 	ok := vsym.MergeBool(func() bool { return h.Decommit(c, d, x) })
 	vsym.Assert(vsym.Implies(ok, vsym.And(okC, okD)), "malformed commitment/decommitment refused by Decommit")
 	vsym.Reach("validate-compared")
+}
+
+// H_CommitBadItem: an opening that contains an item the transcript cannot absorb (nil byte string, nil big integer,
+// unsupported type, empty identifier-like writer) is refused, whatever follows it.
+func H_CommitBadItem() {
+	x1 := vsym.Bytes("x1", 0, 2)
+	h := New()
+	c, d, err := h.Commit(x1)
+	vsym.Assume(err == nil)
+	vsym.Assume(c[0] != 0)
+	vsym.Assume(d[0] != 0)
+	vsym.Assert(h.Decommit(c, d, x1), "honest opening accepted")
+	var bad interface{}
+	switch vsym.Choose("bad", 4) {
+	case 0:
+		bad = []byte(nil)
+	case 1:
+		bad = (*big.Int)(nil)
+	case 2:
+		bad = 42 // unsupported type
+	case 3:
+		bad = &BytesWithDomain{TheDomain: "x", Bytes: nil}
+	}
+	y := vsym.Bytes("y", 0, 2)
+	vsym.Assert(!h.Decommit(c, d, x1, bad), "an unabsorbable item makes the opening fail")
+	vsym.Assert(!h.Decommit(c, d, x1, bad, y), "items after an unabsorbable one do not matter")
+	_, _, err2 := h.Commit(x1, bad)
+	vsym.Assert(err2 != nil, "Commit refuses unabsorbable items")
+	vsym.Reach("baditem-compared")
 }
